@@ -72,3 +72,8 @@ Definition clump_ok (fx : bool) (size : Z) (a : arg) (e : Z * list Z) : bool :=
       let c := clump_canon (clump_bundle fx size els) in (fst c =? fst e) && zlist_eqb (snd c) (snd e)
   | _ => false
   end.
+
+(* the independent OSC 1.0 decoder (model/Osc10.v) accepts a datagram *)
+Require Import SC3.model.Osc10.
+Definition osc10_accepts (d : bytes) : bool :=
+  match Osc10.decode d with Some _ => true | None => false end.
